@@ -92,6 +92,28 @@ Section Jws.
     | None => Err JErr
     end.
 
+  (* Decoder::decode_general_serialization: one payload, the b64 values of all signatures whose protected header decodes must agree
+     (RFC 7797 section 3; decode-side check added by a fix: commit), then every signature is decoded on its own *)
+  Definition decode_protected (p : option (list N)) : option (option H) :=
+    match p with
+    | None => Some None
+    | Some pb => match b64u_decode pb with
+                 | Some js => match parse_header js with Some h => Some (Some h) | None => None end
+                 | None => None end
+    end.
+  Definition general_b64_values (es : list envelope) : list bool :=
+    flat_map (fun e => match decode_protected (e_protected e) with Some ph => [extract_b64 (oview ph)] | None => [] end) es.
+  Definition all_same (l : list bool) : bool :=
+    match l with [] => true | b0 :: r => forallb (Bool.eqb b0) r end.
+  Definition decode_general (pl : option (list N)) (es : list envelope) (det : option (list N))
+    : outcome (list (outcome item jws_err)) jws_err :=
+    match expand_payload det pl with
+    | None => Err JErr
+    | Some payload =>
+        if negb (all_same (general_b64_values es)) then Err JErr
+        else Ok (map (fun e => decode_signature payload (e_header e) (e_protected e) (e_signature e)) es)
+    end.
+
   (* JwsValidationItem::verify: key_alg = alg pinned on the key *)
   Variable V : Z -> list N -> list N -> bool.
   Definition verify (it : item) (key_alg : option Z) : outcome item jws_err :=
